@@ -73,12 +73,14 @@ type Conn struct {
 	// CONNECT) it owes the connection an answer or a close; until then the connection is not
 	// quiet even if a reader is already parked (the session's serve loop starts reading before
 	// the setup worker has written the CONNACK)
-	onWrite     func()
-	stallWrites bool
-	head        []byte // first bytes consumed (at most 5)
-	consumed    int64
-	frameLen    int64 // total length of the first frame; 0 = not known yet, -1 = malformed length
-	wroteOnce   bool
+	onWrite          func()
+	stallWrites      bool
+	hasWriteDeadline bool
+	writeDeadline    time.Duration // virtual
+	head             []byte        // first bytes consumed (at most 5)
+	consumed         int64
+	frameLen         int64 // total length of the first frame; 0 = not known yet, -1 = malformed length
+	wroteOnce        bool
 }
 
 func NewConn(name string, clk *Clock, activity *int64) *Conn {
@@ -147,7 +149,15 @@ func (c *Conn) Write(p []byte) (int, error) {
 	}
 	defer c.mu.Unlock()
 	for c.stallWrites && !c.brokerClosed && !c.clientClosed {
+		if c.hasWriteDeadline && c.clk.Now() >= c.writeDeadline {
+			return 0, timeoutErr{} // the write deadline passed while the peer was not reading
+		}
 		c.cond.Wait() // the peer does not read and every buffer on the way is full
+	}
+	if c.hasWriteDeadline && c.clk.Now() >= c.writeDeadline && !c.brokerClosed {
+		// as on a socket: a write attempted after the write deadline fails at once
+		c.wroteOnce = true
+		return 0, timeoutErr{}
 	}
 	if c.brokerClosed {
 		c.writesAfterClose++
@@ -206,21 +216,32 @@ func (c *Conn) Close() error {
 	return nil
 }
 
-func (c *Conn) setDeadline(t time.Time) {
+func (c *Conn) setDeadline(t time.Time, read, write bool) {
 	c.mu.Lock()
 	defer c.mu.Unlock()
-	if t.IsZero() {
-		c.hasDeadline = false
-	} else {
-		c.hasDeadline = true
-		c.deadline = c.clk.Now() + time.Until(t)
+	if read {
+		if t.IsZero() {
+			c.hasDeadline = false
+		} else {
+			c.hasDeadline = true
+			c.deadline = c.clk.Now() + time.Until(t)
+		}
+	}
+	if write {
+		if t.IsZero() {
+			c.hasWriteDeadline = false
+		} else {
+			c.hasWriteDeadline = true
+			c.writeDeadline = c.clk.Now() + time.Until(t)
+		}
 	}
 	c.cond.Broadcast()
 }
 
-func (c *Conn) SetDeadline(t time.Time) error      { c.setDeadline(t); return nil }
-func (c *Conn) SetReadDeadline(t time.Time) error  { c.setDeadline(t); return nil }
-func (c *Conn) SetWriteDeadline(t time.Time) error { return nil }
+// Deadlines live on the virtual clock, for reads and for writes alike.
+func (c *Conn) SetDeadline(t time.Time) error      { c.setDeadline(t, true, true); return nil }
+func (c *Conn) SetReadDeadline(t time.Time) error  { c.setDeadline(t, true, false); return nil }
+func (c *Conn) SetWriteDeadline(t time.Time) error { c.setDeadline(t, false, true); return nil }
 
 // ---- client (harness) side ---------------------------------------------------------------
 
